@@ -58,6 +58,12 @@ func (r *Rng) Bits(w uint) uint64 {
 		return max - 1
 	case 4:
 		return (uint64(1) << uint(r.Intn(int(w)))) & max
+	case 5: // just below the maximum: where protocols keep their reserved values (ports 0xffffff00.., max_len 0xffe5..)
+		d := uint64(r.Intn(300))
+		if d > max {
+			d = max
+		}
+		return max - d
 	default:
 		return r.U64() & max
 	}
